@@ -22,34 +22,35 @@ var c02rRec = verifkit.New("TestVerif_C02_RewriteDiff",
 
 func drawSpec(t *rapid.T) pktSpec {
 	sp := pktSpec{
-		Codec:     rapid.SampledFrom([]string{"video/VP8", "video/VP8", "video/VP9", "video/H264", "audio/opus", "video/AV1"}).Draw(t, "codec"),
-		E:         rapid.IntRange(0, 65535).Draw(t, "e"),
-		TS:        rapid.Uint32().Draw(t, "ts"),
-		PT:        uint8(rapid.IntRange(0, 127).Draw(t, "pt")),
-		SSRC:      rapid.Uint32().Draw(t, "ssrc"),
-		CSRC:      rapid.SampledFrom([]int{0, 0, 1, 2, 7, 15}).Draw(t, "csrc"),
-		Marker:    rapid.Bool().Draw(t, "marker"),
-		Start:     rapid.Bool().Draw(t, "start"),
-		End:       rapid.Bool().Draw(t, "end"),
-		Key:       rapid.Bool().Draw(t, "key"),
-		Tid:       uint8(rapid.IntRange(0, 3).Draw(t, "tid")),
-		Sid:       uint8(rapid.IntRange(0, 3).Draw(t, "sid")),
-		UpSync:    rapid.Bool().Draw(t, "sync"),
-		NonRef:    rapid.Bool().Draw(t, "nonref"),
-		PidBits:   rapid.SampledFrom([]int{0, 7, 15, 15}).Draw(t, "pidBits"),
-		VP8X:      rapid.Bool().Draw(t, "x"),
-		VP8L:      rapid.Bool().Draw(t, "l"),
-		VP8T:      rapid.Bool().Draw(t, "tt"),
-		VP8K:      rapid.Bool().Draw(t, "k"),
-		VP8N:      rapid.Bool().Draw(t, "n"),
-		VP8PartID: uint8(rapid.IntRange(0, 7).Draw(t, "part")),
-		VP9L:      rapid.Bool().Draw(t, "l9"),
-		VP9F:      rapid.Bool().Draw(t, "f9"),
-		VP9P:      rapid.Bool().Draw(t, "p9"),
-		VP9V:      rapid.Bool().Draw(t, "v9"),
-		VP9D:      rapid.Bool().Draw(t, "d9"),
-		VP9NPDiff: rapid.IntRange(1, 3).Draw(t, "npdiff"),
-		Frame:     rapid.IntRange(0, 255).Draw(t, "frame"),
+		Codec:        rapid.SampledFrom([]string{"video/VP8", "video/VP8", "video/VP9", "video/H264", "audio/opus", "video/AV1"}).Draw(t, "codec"),
+		E:            rapid.IntRange(0, 65535).Draw(t, "e"),
+		TS:           rapid.Uint32().Draw(t, "ts"),
+		PT:           uint8(rapid.IntRange(0, 127).Draw(t, "pt")),
+		SSRC:         rapid.Uint32().Draw(t, "ssrc"),
+		CSRC:         rapid.SampledFrom([]int{0, 0, 1, 2, 7, 15}).Draw(t, "csrc"),
+		Marker:       rapid.Bool().Draw(t, "marker"),
+		Start:        rapid.Bool().Draw(t, "start"),
+		End:          rapid.Bool().Draw(t, "end"),
+		Key:          rapid.Bool().Draw(t, "key"),
+		Tid:          uint8(rapid.IntRange(0, 3).Draw(t, "tid")),
+		Sid:          uint8(rapid.IntRange(0, 3).Draw(t, "sid")),
+		UpSync:       rapid.Bool().Draw(t, "sync"),
+		NonRef:       rapid.Bool().Draw(t, "nonref"),
+		PidBits:      rapid.SampledFrom([]int{0, 7, 15, 15}).Draw(t, "pidBits"),
+		VP8X:         rapid.Bool().Draw(t, "x"),
+		VP8L:         rapid.Bool().Draw(t, "l"),
+		VP8T:         rapid.Bool().Draw(t, "tt"),
+		VP8K:         rapid.Bool().Draw(t, "k"),
+		VP8N:         rapid.Bool().Draw(t, "n"),
+		VP8PartID:    uint8(rapid.IntRange(0, 7).Draw(t, "part")),
+		VP8PartStart: rapid.Bool().Draw(t, "partStart"),
+		VP9L:         rapid.Bool().Draw(t, "l9"),
+		VP9F:         rapid.Bool().Draw(t, "f9"),
+		VP9P:         rapid.Bool().Draw(t, "p9"),
+		VP9V:         rapid.Bool().Draw(t, "v9"),
+		VP9D:         rapid.Bool().Draw(t, "d9"),
+		VP9NPDiff:    rapid.IntRange(1, 3).Draw(t, "npdiff"),
+		Frame:        rapid.IntRange(0, 255).Draw(t, "frame"),
 	}
 	switch rapid.IntRange(0, 3).Draw(t, "pidClass") {
 	case 0:
